@@ -454,4 +454,45 @@ Section C02Model.
   Definition sup_vector (n : nat) (comps : list sup_comp) (qs : list (list T)) : list T :=
     fold_left (fun s cq => if su_active (fst cq) then vadd s (map (fun x => su_coeff (fst cq) * x) (snd cq)) else s)
               (combine comps qs) (repeat zero n).
+  (* ---------------------------------------------------------------- minimum image in a general (triclinic) cell
+     colvarproxy_system::update_pbc_lattice + position_distance: reciprocal vectors from cross products, the three
+     reduced coordinates rounded to the nearest integer (floor(x + 1/2)), the lattice vector subtracted *)
+  Definition recip_cell (a b c : V3) : V3 * V3 * V3 :=
+    let vx := v3cross b c in let vy := v3cross c a in let vz := v3cross a b in
+    (v3div vx (v3dot O vx a), v3div vy (v3dot O vy b), v3div vz (v3dot O vz c)).
+  Definition round_shift (x : T) : T := nofZ O (nfloor O (x + nhalf O)).
+  Definition pd_cell (a b c : V3) (p1 p2 : V3) : V3 :=
+    let d := v3sub O p2 p1 in
+    let '(rx, ry, rz) := recip_cell a b c in
+    let sx := round_shift (v3dot O rx d) in
+    let sy := round_shift (v3dot O ry d) in
+    let sz := round_shift (v3dot O rz d) in
+    let '(dx, dy, dz) := d in
+    let '(ax, ay, az) := a in let '(bx, by_, bz) := b in let '(cx, cy, cz) := c in
+    (dx - (sx * ax + sy * bx + sz * cx), dy - (sx * ay + sy * by_ + sz * cy), dz - (sx * az + sy * bz + sz * cz)).
+  (* the pair lists of selfCoordNum / group2CenterOnly as state over steps and runs (same rebuild rule) *)
+  Definition pts_full (r0 : T) (r0v : option V3) (en ed : Z) (tol : T) (cell : option V3) (pts : list (V3 * V3)) : T :=
+    lsum (fun pr => switching r0 r0v en ed tol cell (fst pr) (snd pr)) pts.
+  Definition pl_step_pts (freq : Z) (r0 : T) (r0v : option V3) (en ed : Z) (tol : T) (cell : option V3)
+             (st : list bool) (rel : Z) (pts : list (V3 * V3)) : list bool * T :=
+    if Z.eqb (Z.modulo rel freq) 0
+    then (pl_build_pts r0 r0v en ed tol cell pts, pts_full r0 r0v en ed tol cell pts)
+    else (st, pl_value_pts st r0 r0v en ed tol cell pts).
+  Fixpoint pl_run_pts (freq : Z) (r0 : T) (r0v : option V3) (en ed : Z) (tol : T) (cell : option V3)
+           (st : list bool) (rel : Z) (frames : list (list (V3 * V3))) : list T * list bool :=
+    match frames with
+    | [] => ([], st)
+    | fr :: rest =>
+      let '(st1, v) := pl_step_pts freq r0 r0v en ed tol cell st rel fr in
+      let '(vs, st2) := pl_run_pts freq r0 r0v en ed tol cell st1 (Z.succ rel) rest in
+      (v :: vs, st2)
+    end.
+  Fixpoint pl_session_pts (freq : Z) (r0 : T) (r0v : option V3) (en ed : Z) (tol : T) (cell : option V3)
+           (st : list bool) (runs : list (list (list (V3 * V3)))) : list (list T) :=
+    match runs with
+    | [] => []
+    | run :: rest =>
+      let '(vs, st1) := pl_run_pts freq r0 r0v en ed tol cell st 0%Z run in
+      vs :: pl_session_pts freq r0 r0v en ed tol cell st1 rest
+    end.
 End C02Model.
